@@ -149,6 +149,8 @@ def instantiate(it, cls: ClassVal, args, kwargs):
                     return m
             it.throw("ValueError", f"{v!r} is not a valid {cls.name}")
         raise Unsupported("enum call")
+    if getattr(cls, "is_record", False):
+        return SObj(cls, {"args": tuple(args), **kwargs})
     from .astmodel import is_ast_class, instantiate_ast
     if is_ast_class(cls) and cls.lookup("__init__")[0] is None:
         return instantiate_ast(it, cls, args, kwargs)
